@@ -152,23 +152,44 @@ def run(R, tier):
                 else:
                     ok = ok and isinstance(v, SymV) and v.id == "old:" + n
         R.check(ok, "R17.4", "NumericBuilder::" + setter, "sets `%s` only" % setter, "NumericBuilder::%s must set field `%s` and keep the others" % (setter, setter), where=sb.span)
-    # type defaults = T::MAX / T::MIN
+    # type defaults = T::MAX / T::MIN - by evaluating the function (helpers in place; num_traits::Bounded by contract)
+    from .c08 import F_CONST
+    import re as _re2
+
+    def m_bounded(which):
+        def m(eng_, st, fr, t, name, rname, args):
+            g = [str(x) for x in eng_.concrete_gargs(st, t["callee"])]
+            ty_ = next((x for x in g if x in CV.INTS or x in CV.FLOATS), None)
+            if ty_ is None:
+                return NotImplemented
+            if ty_ in CV.INTS:
+                lo_, hi_, _ = CV.INTS[ty_]
+                return K(hi_ if which == "max" else lo_)
+            return AggV("float", {0: K(F_CONST[ty_]["MAXimum" if which == "max" else "MINimum"]), 1: K(32 if ty_ == "f32" else 64)})
+        return m
+
+    deng = fdai.Engine(P, uc, inline=lambda n_, r_: r_.startswith("scpi_contrib::scpi1999::numeric::") and not r_.endswith(("numeric_value_max", "numeric_value_min")),
+                       models={pre + "Bounded::" + w + "_value": m_bounded(w) for w in ("max", "min")
+                               for pre in ("num_traits::", "num_traits::bounds::", "scpi::units::uom::num_traits::", "uom::num_traits::", "scpi::units::uom::num_traits::bounds::")}, max_paths=8)
     n_def = 0
     for b in uc.bodies:
         if b.name in ("numeric_value_max", "numeric_value_min") and "NumericValueDefaults" in (b.impl_trait or ""):
             ty = b.impl_self
-            if ty in CV.INTS:
+            if ty in CV.INTS or ty in CV.FLOATS:
                 n_def += 1
-                lo, hi, _ = CV.INTS[ty]
-                e = sym.norm(sym.Sym(b.mir).local(0))
-                exp = hi if b.name.endswith("max") else lo
-                R.check(e[0] == "int" and e[1] == exp, "R17.4", "%s::%s" % (ty, b.name), "= %d" % exp, "%s::%s() = %s, expected %d" % (ty, b.name, sym.show(e), exp), where=b.span)
-            elif ty in CV.FLOATS:
-                n_def += 1
-                e = sym.norm(sym.Sym(b.mir).local(0))
-                from .c08 import F_CONST
-                exp = F_CONST[ty]["MAXimum" if b.name.endswith("max") else "MINimum"]
-                R.check(e[0] == "float" and e[1] == exp, "R17.4", "%s::%s" % (ty, b.name), "= type %s" % ("MAX" if b.name.endswith("max") else "MIN"), "%s::%s() has bits %s" % (ty, b.name, e), where=b.span)
+                try:
+                    rs = deng.run(b, [])
+                except (fdai.TooManyPaths, RecursionError):
+                    rs = []
+                v = rs[0].retval if len(rs) == 1 and rs[0].outcome == "return" else None
+                if ty in CV.INTS:
+                    lo, hi, _ = CV.INTS[ty]
+                    exp = hi if b.name.endswith("max") else lo
+                    R.check(isinstance(v, K) and v.v == exp, "R17.4", "%s::%s" % (ty, b.name), "= %d" % exp, "%s::%s() = %r, expected %d" % (ty, b.name, v, exp), where=b.span)
+                else:
+                    exp = F_CONST[ty]["MAXimum" if b.name.endswith("max") else "MINimum"]
+                    got = v.fields.get(0).v if isinstance(v, AggV) and v.kind == "float" and isinstance(v.fields.get(0), K) else None
+                    R.check(got == exp, "R17.4", "%s::%s" % (ty, b.name), "= type %s" % ("MAX" if b.name.endswith("max") else "MIN"), "%s::%s() has bits %r" % (ty, b.name, got if got is not None else v), where=b.span)
             elif "Quantity<" in (ty or ""):
                 # a unit quantity's type default is the storage type's default of the same kind, as the stored value
                 n_def += 1
